@@ -382,6 +382,20 @@ def c12_classifier_fresh_buffers():
     return not diff, f"derived buffers changed by loading an identical fresh state: {diff} (occurrences {before['occurrences'].tolist()} -> {c.occurrences.tolist()})"
 
 
+def c01_range_write_dtype():
+    """C01: a tensor-offset range write converts the observations to the record's own data type (as documented)."""
+    from inferno import RecordTensor, Module
+    obs = torch.tensor([[0.5, 1.5], [2.5, 3.5]])
+    o = Module()
+    RecordTensor.create(o, "rec", 1.0, 2.0, torch.tensor([1, 2]), inclusive=True)  # int64 storage, 3 slots
+    o.rec.incr(2)
+    try:
+        o.rec.writerange(obs, torch.tensor([0, 0]))
+    except Exception as e:
+        return False, f"writerange(float obs, tensor offsets) on an int64 record raised {type(e).__name__}: {str(e)[:80]}"
+    return o.rec.value.dtype == torch.int64, f"storage dtype {o.rec.value.dtype}, newest {o.rec.peek().tolist()}"
+
+
 def c01_narrow_offset_overflow():
     """C01: tensor offsets of any integer dtype address the same observations as the equal int64 offsets."""
     r = rt(3, torch.zeros(2))
